@@ -164,7 +164,10 @@ func honestIssuance(g *Rng, kp *KeyPair, nattr int, blind []int, keyshare, witne
 	}
 	msg, err := issuer.IssueSignature(commitMsg.U, attrs, w, nonce2, blind)
 	if err != nil {
-		panic(err)
+		// an honest run that the issuer refuses: the parameters are the failing input
+		emit(Op{"op": "recorded", "class": fmt.Sprintf("issuer-refuses-honest-run-blind%v", blind), "label": "issued", "nomodel": true,
+			"result": "refused: " + err.Error(), "nattr": nattr, "blind": intsAny(blind), "keyshare": keyshare, "witness": witness})
+		return nil
 	}
 	_, vPrime, _, _, mUser, _ := b.VerifState()
 	// expected credential: (secret, attrs) with blind attributes = user share + issuer share
@@ -247,6 +250,9 @@ func genC06(g *Rng, tier string, emit func(Op)) {
 					continue
 				}
 				run := honestIssuance(g, kp, 2, blind, keyshare, false, emit)
+				if run == nil {
+					continue
+				}
 				emit(run.op)
 				if tier == "thorough" || nruns < 2 {
 					emitIssuanceAlterations(g, run, nil, emit)
@@ -278,6 +284,9 @@ func genC06(g *Rng, tier string, emit func(Op)) {
 							continue
 						}
 						run := honestIssuance(g, kp, nattr, blind, keyshare, witness, emit)
+						if run == nil {
+							continue
+						}
 						emit(run.op)
 						emitIssuanceAlterations(g, run, prev, emit)
 						prev = run
